@@ -28,7 +28,10 @@ cfg_if::cfg_if! {
         // unique circuit labels (typically a handful).
         fn transcript_label_static(label: &[u8]) -> &'static [u8] {
             use alloc::vec::Vec;
+            #[cfg(not(dusk_plonk_verif_shuttle))]
             use std::sync::Mutex;
+            #[cfg(dusk_plonk_verif_shuttle)]
+            use shuttle::sync::Mutex;
             use std::collections::HashMap;
 
             static CACHE: Mutex<Option<HashMap<Vec<u8>, &'static [u8]>>> =
